@@ -377,6 +377,22 @@ fn gen_x(rng: &mut Rng) -> (Dec, u64) {
             let scale = zeros as i64 + rng.range(-3, 3) * (rng.below(3) as i64 / 2);
             (Dec::new(rng.chance(1, 2), &format!("{}{}", head, "0".repeat(zeros as usize)), scale), 0)
         }
+        // a hair away from a value with a closed-form reciprocal (2^k, 5^k, 10^k, 1): c * (1 +- d * 10^-j)
+        // - anything that recognises such values approximately (through a float, a truncated compare, ...) is fooled here
+        8 if rng.chance(1, 2) => {
+            let c: BigUint = match rng.below(4) {
+                0 => pow2(1 + rng.below(62)),
+                1 => pow5(1 + rng.below(27)),
+                2 => BigUint::from(1u8),
+                _ => pow2(rng.below(20)) * pow5(rng.below(12)),
+            };
+            let j = 8 + rng.below(40);
+            let d = 1 + rng.below(9);
+            let scaled = &c * crate::refdec::pow10(j);
+            let delta = &c * BigUint::from(d);
+            let v = if rng.chance(1, 2) || scaled <= delta { scaled + delta } else { scaled - delta };
+            (Dec::new(rng.chance(1, 2), &v.to_str_radix(10), j as i64 + rng.range(-6, 6)), 0)
+        }
         // small integers and simple fractions
         7 => {
             let hi = if rng.chance(1, 2) { 100 } else { 100_000 };
